@@ -969,6 +969,12 @@ func (sc *srvScen) respondingNodeVia(addr *net.UDPAddr, id [20]byte, ro bool, pi
 	if sc.dead {
 		return
 	}
+	if pinged != nil && sc.isBlocked(addr.IP) {
+		// the questionable-node ping cannot be written to a blocklisted address: it fails at once, which marks
+		// the entry exactly as a ping that timed out does
+		sc.failPing(addr, *pinged)
+		return
+	}
 	w0 := sc.conn.numWrites()
 	done := make(chan dht.QueryResult, 1)
 	// the node's own query is not always a ping: any answered query shows the contact is alive
